@@ -113,6 +113,7 @@ def run(ctx):
     run_scopefn(ctx, F, scopefn)
     run_k1(ctx, F)
     run_loopback(ctx, F)
+    ctx.exhaustive = True      # every sink site of the anchored functions is enumerated from the HIR
 
 
 # ---- check_oauth2_authorisation ---------------------------------------------------------------------------
